@@ -165,33 +165,44 @@ def run(prop, tier, quick_slices, thorough_slices, nontrivial, drive_profile="mi
                         workers=8 if thorough else 4, xmx="24g" if thorough else "8g", timeout=3000 if thorough else 600)
     mcs = {name: res["MC_%s.cfg" % name] for name in names}
     # replay budget (number of maximal schedules): equal shares, what a small slice does not need goes to the larger ones
-    extracted = {}
+    extracted, graphs = {}, {}
+    walks = 30000 if thorough else 5000
     for name in names:
         mc = mcs[name]
         if not mc["completed"] or mc["errors"]:
             txt = open(mc["out"], errors="replace").read()
             sv = [l[:600] for l in txt.splitlines() if l.startswith('<<"SPECVIOL"')][:2]
             raise vlib.ToolError("slice %s: the specification violates its own properties/invariants: %s %s" % (name, mc["errors"][:2], sv))
-        extracted[name] = vlib.maximal_schedules(mc["out"])
+        graphs[name] = vlib.Graph()
+        extracted[name] = vlib.maximal_schedules(mc["out"], graph=graphs[name])
         os.remove(mc["out"])
         if extracted[name][0] == 0:
             raise vlib.ToolError("slice %s produced no transitions" % name)
     shares = vlib.water_fill({n: len(extracted[n][1]) for n in names}, limit)
+    # besides the transition cover (which continues only the FIRST history found to each state): random walks through
+    # the explored state graph, so that states are also reached - and left - by other histories
+    wshares = vlib.water_fill({n: 2 * extracted[n][0] for n in names}, walks)
     for name in names:
         total, lines, parent = extracted[name]
         ef = os.path.join(wd, "edges_%s.ndjson" % name)
         kept, covered = vlib.write_schedules(lines, parent, ef, limit=shares[name], rng_seed=rng.randrange(1 << 30))
+        wl = graphs[name].walks(wshares[name], random.Random(rng.randrange(1 << 30)))
+        with open(ef, "a") as f:
+            for l in wl:
+                f.write(l + "\n")
         states += mcs[name]["distinct"]
         transitions += total
-        per_slice[name] = {"states": mcs[name]["distinct"], "transitions": total, "replayed": covered, "schedules": kept, "maximal_schedules": len(lines)}
+        per_slice[name] = {"states": mcs[name]["distinct"], "transitions": total, "replayed": covered, "schedules": kept,
+                           "maximal_schedules": len(lines), "graph_walks": len(wl)}
         edge_files.append(ef)
-    del extracted
+    del extracted, graphs
 
     # one harness process + one Trace_Endpoint run per slice (and one for the random histories), side by side:
     # every TLC worker deserialises the whole trie it walks, so several small tries are cheaper than one big one
     drive_n = "400" if thorough else "40"
-    parts = [(os.path.basename(ef)[6:-7], ["--edges", ef]) for ef in edge_files]
-    parts.append(("random", (["--probe"] if prop == "C11" else []) +
+    twin = ["--checked"] if prop == "C11" else []      # C11: a twin object driven through checked_send runs alongside
+    parts = [(os.path.basename(ef)[6:-7], twin + ["--edges", ef]) for ef in edge_files]
+    parts.append(("random", twin + (["--probe"] if prop == "C11" else []) +
                   ["--drive", drive_n, "--seed", str(vlib.seed()), "--steps", "120" if thorough else "60", "--profile", drive_profile]))
     t_mc = time.time() - t0
 
@@ -255,7 +266,7 @@ def run(prop, tier, quick_slices, thorough_slices, nontrivial, drive_profile="mi
         "evaluations": hs.get("calls", 0),
         "distinct_nontrivial": nt_n,
         "rule": ("TLC explores the slices %s of MC_Endpoint.tla exhaustively (all interleavings of the slice's alphabet); "
-                 "each explored transition is a history of public calls replayed on the real library (at most %d per run, sampled by seed), "
+                 "each explored transition is a history of public calls replayed on the real library (at most %d maximal schedules per run, sampled by seed, plus seeded random walks through the explored state graph), "
                  "plus %s seeded random histories; every distinct call prefix is one trie node judged by TLC. "
                  "distinct_nontrivial = trie nodes at which %s" % (names, limit, args[args.index("--drive") + 1], extra_rule)),
         "slices": per_slice,
